@@ -224,7 +224,7 @@ func (t *Tools) Materialise(c *Case, spec interface{}) error {
 		}
 	}
 	main := "package m_test\n\nimport (\n\t\"context\"\n\t\"os\"\n\t\"testing\"\n\n\t\"github.com/hashicorp/terraform-plugin-framework/diag\"\n\t\"github.com/hashicorp/terraform-plugin-framework/types\"\n\t\"verif/rt\"\n" +
-		imports.String() + ")\n\nvar _ context.Context\nvar _ diag.Diagnostics\nvar _ types.Object\n\nfunc TestMain(m *testing.M) {\n" + regs.String() + "\tos.Exit(m.Run())\n}\n\nfunc TestCase(t *testing.T) { rt.Run(t) }\n"
+		imports.String() + ")\n\nvar _ context.Context\nvar _ diag.Diagnostics\nvar _ types.Object\n\nfunc TestMain(m *testing.M) {\n" + regs.String() + "\tos.Exit(m.Run())\n}\n\nfunc TestCase(t *testing.T) { rt.Run(t) }\n\nfunc FuzzCase(f *testing.F) { rt.Fuzz(f) }\n"
 	if err := write(filepath.Join(c.Dir, "main_test.go"), main); err != nil {
 		return err
 	}
@@ -311,4 +311,53 @@ func (t *Tools) RunCase(c *Case, specPath, outPath string, timeout time.Duration
 		<-done
 		return out.String(), Infra("case binary timed out after %v (inconclusive)", timeout)
 	}
+}
+
+// FuzzResult is the outcome of a native fuzz campaign on a compiled case.
+type FuzzResult struct {
+	Output   string
+	Execs    int
+	Failed   bool
+	Crashers []string // files under testdata/fuzz/FuzzCase
+}
+
+var execsRe = regexp.MustCompile(`execs: (\d+)`)
+
+// FuzzCase runs `go test -fuzz` (all cores) on the case for the given duration. With corpusOnly it only
+// re-runs the saved corpus entries (deterministic replay of a crasher).
+func (t *Tools) FuzzCase(c *Case, specPath, fuzzOut string, fuzztime time.Duration, corpusOnly bool) (*FuzzResult, error) {
+	args := []string{"test", "-vet=off", "-count=1", "-run", "^FuzzCase$", "."}
+	if !corpusOnly {
+		args = []string{"test", "-vet=off", "-run", "^$", "-fuzz", "^FuzzCase$", "-fuzztime", fuzztime.String(), "."}
+	}
+	cmd := exec.Command("go", args...)
+	cmd.Dir = c.Dir
+	cmd.Env = GoEnv("VERIF_SPEC="+specPath, "VERIF_FUZZ_OUT="+fuzzOut)
+	var out bytes.Buffer
+	cmd.Stdout, cmd.Stderr = &out, &out
+	if err := cmd.Start(); err != nil {
+		return nil, Infra("go test -fuzz: %v", err)
+	}
+	done := make(chan error, 1)
+	go func() { done <- cmd.Wait() }()
+	var werr error
+	select {
+	case werr = <-done:
+	case <-time.After(fuzztime + 10*time.Minute):
+		_ = cmd.Process.Kill()
+		<-done
+		return nil, Infra("go test -fuzz did not finish")
+	}
+	r := &FuzzResult{Output: out.String(), Failed: werr != nil}
+	for _, m := range execsRe.FindAllStringSubmatch(r.Output, -1) {
+		var n int
+		fmt.Sscanf(m[1], "%d", &n)
+		if n > r.Execs {
+			r.Execs = n
+		}
+	}
+	files, _ := filepath.Glob(filepath.Join(c.Dir, "testdata", "fuzz", "FuzzCase", "*"))
+	sort.Strings(files)
+	r.Crashers = files
+	return r, nil
 }
